@@ -375,6 +375,10 @@ def eq(a, b):
         return TRUE
     if is_lit(a) and is_lit(b):
         return TRUE if a.args[0] == b.args[0] else FALSE
+    # (y >> k) << k is zero exactly when y >> k is (nothing is shifted out)
+    for u, w in ((a, b), (b, a)):
+        if w.op == "lit" and w.args[0] == 0 and w.args[0] is not False and u.op == "shl" and u.args[0].op == "shr" and u.args[1] is u.args[0].args[1]:
+            return eq(u.args[0], lit(0))
     # a one-bit value compared with 1 is the negation of its comparison with 0
     for u, w in ((a, b), (b, a)):
         if w.op == "lit" and w.args[0] == 1 and w.args[0] is not True and u.op == "band" and any(t.op == "lit" and t.args[0] == 1 and t.args[0] is not True for t in u.args if isinstance(t, T)):
